@@ -1,5 +1,6 @@
 """C08 — guards: cond/unless conjunction and Python-faithful boolean expressions (DESIGN.md 4/C08)."""
 import itertools
+import functools
 import types
 import warnings
 
@@ -74,8 +75,8 @@ def cmp_expr():
 
 
 STR_NAMES = ["label", "sv"]
-STR_CONSTS = ["'a v b'", '"x!"', "'^'", "'s'", "''", "'1'", "'not a'", '"a ^ b"']
-STR_VALUES = ["a v b", "x!", "^", "s", "", "1", "not a", "a ^ b", "a  or  b"]
+STR_CONSTS = ["'a v b'", '"x!"', "'^'", "'s'", "''", "'1'", "'not a'", '"a ^ b"', "'a  b'", "'a\tb'", "' s'"]
+STR_VALUES = ["a v b", "x!", "^", "s", "", "1", "not a", "a ^ b", "a  or  b", "a  b", "a b", "a\tb", " s"]
 
 
 def str_cmp():
@@ -254,6 +255,22 @@ def build(entries_cond, entries_unless, providers, kinds, decl="to", falsy=()):
             async def f(self):
                 Hd.reads.append(name)
                 return Hd.val.get(key)
+        elif kind == "classmethod":
+            def f(cls):
+                Hd.reads.append(name)
+                return Hd.val.get(key)
+
+            f.__name__ = name
+            f.__qualname__ = f"E{uid}_{prov}.{name}"
+            return classmethod(f)
+        elif kind == "partialmethod":
+            def f(self, flag):
+                Hd.reads.append(name)
+                return Hd.val.get(key) if flag else None
+
+            f.__name__ = name
+            f.__qualname__ = f"E{uid}_{prov}.{name}"
+            return functools.partialmethod(f, True)
         else:
             def fget(self):
                 Hd.reads.append(name)
@@ -582,7 +599,7 @@ def positive(draw, tier):
             provs = draw(st.sampled_from([["machine", "model"], ["machine", "l0"], ["model", "l0"]]))
         providers[n] = provs
         for p in provs:
-            kinds[f"{n}@{p}"] = draw(st.sampled_from(["method", "property", "attr"]))
+            kinds[f"{n}@{p}"] = draw(st.sampled_from(["method", "method", "property", "attr", "classmethod", "partialmethod"]))
     vals = []
     for _ in range(draw(st.integers(5, 7 if tier == "quick" else 10))):
         env = {}
